@@ -214,6 +214,46 @@ def worker(args, scratch):
             if total != nburst:
                 res["violations"].append(["failed-summary-%s:burst-%s" % ("undercount" if total < nburst else "overcount", mode), {"sent": nburst, "recorded": total, "endpoint": endpoint}])
             res["nontrivial"].append(common.sha([endpoint, "burst", mode]))
+        # ---- the same callers denied on all three endpoints in one history: WireServer and HostGAPlugin share an address and
+        # differ only in the port, IMDS differs in the address; every denial must be recorded under the destination it was made to
+        for mode in ("enforce", "audit"):
+            for ep in wproxy.DESTS:
+                if ep in ("wireserver", "hostga", "imds"):
+                    w.rules(ep, dict(deny_all, mode=mode, id="cross-%s-%s" % (ep, mode)))
+            w.shim.call("clear_summaries")
+            expected = collections.Counter()
+            plan = []
+            for ci, who in enumerate(callers):
+                for ei, ep in enumerate(("wireserver", "hostga", "imds")):
+                    for k in range(1 + (ci + 2 * ei + args["shard"]) % 4):
+                        plan.append((ci, ep, k))
+            r.shuffle(plan)
+
+            def cross(lo, hi):
+                for ci, ep, k in plan[lo:hi]:
+                    try:
+                        conn = w.open(ep, callers[ci])
+                        conn.send(rawhttp.build_request("GET", "/cross/%d?k=%d" % (ci, k), [("x-vf-id", "c11-cross-%s-%d-%s-%d" % (mode, ci, ep, k))]))
+                        conn.read_response()
+                        conn.close()
+                    except Exception:  # noqa
+                        bump("cross_client_errors")
+            step = (len(plan) + 3) // 4
+            ts = [threading.Thread(target=cross, args=(k * step, min(len(plan), (k + 1) * step))) for k in range(4)]
+            for t in ts: t.start()
+            for t in ts: t.join()
+            time.sleep(0.15)
+            for ci, ep, k in plan:
+                who = callers[ci]
+                eip, eport = wproxy.DESTS[ep]
+                expected[(who.user, eip, eport, who.exe, who.cmdline)] += 1
+            res["evaluations"] += len(plan)
+            ms = summary_multiset(w.shim.call("summaries")["failed"])
+            bump("cross_endpoint_denials_sent", len(plan)); bump("cross_endpoint_denials_recorded", sum(ms.values()))
+            if ms != expected and not cnt.get("cross_client_errors"):
+                res["violations"].append(["failed-summary-wrong-destination-or-count:cross-endpoint-%s" % mode,
+                                          {"missing": {str(k): v for k, v in (expected - ms).items()}, "extra": {str(k): v for k, v in (ms - expected).items()}}])
+            res["nontrivial"].append(common.sha(["cross-endpoint", mode, args["shard"]]))
         for p in w.shim.panics():
             res["violations"].append(["panic:%s" % p.get("location"), p])
     finally:
@@ -226,7 +266,7 @@ def run(tier, rep):
     rep.coverage["rule"] = ("per endpoint (WireServer, HostGAPlugin, IMDS): generated rule sets; one request/caller sequence (few distinct requests repeated many times, 5 real caller processes, 8 concurrent "
                             "connections) replayed under allow-all, enforce, audit and disabled; oracles: enforce denial -> 403 and nothing upstream; audit denial -> relayed byte-identically (modulo id/date/MAC) to the "
                             "allow-all run; disabled -> rules not consulted; and conservation: the 403 entries of failedAuthenticateSummary (getter and published status.json) equal the multiset of denied requests "
-                            "keyed by (user, ip, port, process path, command line). non-trivial = denial under audit or enforce; distinct by (endpoint, mode, caller key)")
+                            "keyed by (user, ip, port, process path, command line); a burst of several hundred simultaneous denials; and a cross-endpoint history in which every caller is denied on all three endpoints (same address/different port, different address). non-trivial = denial under audit or enforce; distinct by (endpoint, mode, caller key)")
     eps = ["wireserver", "hostga", "imds"]
     shards = 6 if tier == "quick" else 15
     args = [{"shard": i, "tier": tier, "endpoint": eps[i % 3], "rulesets": 3 if tier == "quick" else 25, "requests": 240 if tier == "quick" else 1500,
